@@ -88,12 +88,27 @@ def native(prop, r, group, recipe, seed):
     if spec.schema:
         res = kanirun.run_job(group, r["harness"], mode=spec.mode, timeout_s=spec.timeout * 2, mem_gb=spec.mem, fs=spec.fs,
                               playback=True)
-        vals = res.get("playback_vals")
-        if not vals:
+        allv = res.get("playback_all") or []
+        if not allv:
             return {"reproduced": False, "detail": "no concrete values from Kani (class=%s)" % res["class"], "path": None}
-        args = _values_by_schema(spec.schema, vals)
+        tried, ok, out, cond, args = [], False, "", None, None
+        for vals in allv:
+            a = _values_by_schema(spec.schema, vals)
+            if a is None:
+                continue
+            a.update(spec.replay_args or {})
+            a["seed"] = seed
+            a["failed"] = [f["desc"] for f in r.get("failed", [])][:5]
+            ok, out, cond = run_recipe(recipe, a)
+            tried.append({"args": a, "reproduced": ok})
+            args = a
+            if ok:
+                break
         if args is None:
             return {"reproduced": False, "detail": "playback values do not fit the input schema", "path": None}
+        path = _save(prop, r, {"kind": "native", "recipe": recipe, "args": args, "native_output": out[-3000:],
+                               "vectors_tried": len(tried), "vectors_total": len(allv)})
+        return {"reproduced": ok, "path": path, "detail": out.strip().splitlines()[-1] if out.strip() else "", "condition": cond}
     else:
         args = {}
     args.update(spec.replay_args or {})
@@ -124,12 +139,26 @@ def replay_bin(flavour="std"):
         env = dict(kanirun.ENV)
         if flavour == "rng":
             env["RUSTFLAGS"] = '--cfg getrandom_backend="custom"'
+        tgt = _replay_target(d, flavour)
+        env["CARGO_TARGET_DIR"] = tgt
         for prof in (["--release"], []):
             rc, out = kanirun.sh(["cargo", "build", "--offline"] + prof, cwd=d, timeout=2400, env=env)
             if rc != 0:
                 raise RuntimeError("replay crate (%s) failed to build:\n%s" % (flavour, out[-3000:]))
+        # private copies of the two binaries: a shared target dir may be rebuilt by another check
+        for prof in ("release", "debug"):
+            os.makedirs(os.path.join(d, "bin", prof), exist_ok=True)
+            shutil.copy2(os.path.join(tgt, prof, "replay"), os.path.join(d, "bin", prof, "replay"))
         _replay_built[flavour] = True
-    return os.path.join(d, "target", "release", "replay"), os.path.join(d, "target", "debug", "replay")
+    return os.path.join(d, "bin", "release", "replay"), os.path.join(d, "bin", "debug", "replay")
+
+
+def _replay_target(d, flavour):
+    """target dir of the replay build.  VERIF_REPLAY_TARGET (set by lib/test_seed.sh) shares the compiled
+    third-party crates (aws-lc's C build above all) between scratch build roots; cargo's own lock
+    serialises concurrent builds."""
+    shared = os.environ.get("VERIF_REPLAY_TARGET")
+    return os.path.join(shared, flavour) if shared else os.path.join(d, "target")
 
 
 def run_recipe(recipe, args):
